@@ -227,6 +227,40 @@ pub struct Report {
 
 const CHUNKS: usize = 32;
 
+/// Resident memory of this process in bytes (Linux; 0 when it cannot be read).
+fn rss_bytes() -> u64 {
+    std::fs::read_to_string("/proc/self/statm")
+        .ok()
+        .and_then(|s| s.split_whitespace().nth(1).and_then(|p| p.parse::<u64>().ok()))
+        .map(|pages| pages * 4096)
+        .unwrap_or(0)
+}
+
+fn mem_limit() -> u64 {
+    std::env::var("VERIF_MEM_LIMIT_GB").ok().and_then(|s| s.parse::<u64>().ok()).unwrap_or(16) << 30
+}
+
+/// Memory watchdog of the monitor threads: a case that eats the machine's memory gets the process killed
+/// without a trace, so the run ends as inconclusive (exit 2) before that, naming the cases then running.
+fn memory_watchdog(id: &str, phase: &str, running: Vec<serde_json::Value>) {
+    let rss = rss_bytes();
+    if rss < mem_limit() {
+        return;
+    }
+    let path = format!("{}/logs/mem-{}-{}.json", verif_dir(), id, phase);
+    let _ = std::fs::create_dir_all(format!("{}/logs", verif_dir()));
+    let _ = std::fs::write(&path, serde_json::to_string(&json!({"phase": phase, "running": running})).unwrap());
+    println!(
+        "INCONCLUSIVE: property={} phase={} the process holds {} MiB, more than the limit of {} MiB (cases running at that moment: {})",
+        id,
+        phase,
+        rss >> 20,
+        mem_limit() >> 20,
+        path
+    );
+    std::process::exit(2);
+}
+
 fn slow_limit() -> u64 {
     std::env::var("VERIF_SLOW_LIMIT").ok().and_then(|s| s.parse().ok()).unwrap_or(180)
 }
@@ -312,6 +346,13 @@ impl Report {
                 let mut reported = false;
                 while !finished.load(Ordering::SeqCst) {
                     std::thread::sleep(std::time::Duration::from_millis(500));
+                    if rss_bytes() >= mem_limit() {
+                        let running = current
+                            .iter()
+                            .filter_map(|slot| slot.lock().unwrap().as_ref().map(|(t0, tape)| json!({"running_ms": t0.elapsed().as_millis() as u64, "tape": tape})))
+                            .collect();
+                        memory_watchdog(id, &phase_name, running);
+                    }
                     for slot in current.iter() {
                         let g = slot.lock().unwrap();
                         if let Some((t0, tape)) = g.as_ref() {
@@ -465,6 +506,13 @@ impl Report {
             s.spawn(|| {
                 while !finished.load(Ordering::SeqCst) && live.load(Ordering::SeqCst) > 0 {
                     std::thread::sleep(std::time::Duration::from_millis(500));
+                    if rss_bytes() >= mem_limit() {
+                        let running = current
+                            .iter()
+                            .filter_map(|slot| slot.lock().unwrap().as_ref().map(|(t0, i)| json!({"running_ms": t0.elapsed().as_millis() as u64, "index": i})))
+                            .collect();
+                        memory_watchdog(id, &phase_name, running);
+                    }
                     for slot in current.iter() {
                         let g = slot.lock().unwrap();
                         if let Some((t0, i)) = g.as_ref() {
